@@ -18,13 +18,13 @@ RACE = " The whole run is under the Go race detector (reports in mocrelay frames
 
 add("C02", "exploration",
     "runtime monitoring: reference-predicate oracle over seeded (event, filter) pairs and limit-matcher traces, race detector",
-    "Every generated (event, filter) pair and every prefix of every event sequence fed to the limit-counting matcher is judged by an independent transliteration of the NIP-01 predicate and shadow counters; held on the executions listed in the evidence (truth-table coverage reported), not a proof." + RACE,
+    "Every generated (event, filter) pair and every prefix of every event sequence fed to the limit-counting matcher is judged by an independent transliteration of the NIP-01 predicate and shadow counters (boundary timestamps, look-alike values, shared limit variables, matchers shared by four goroutines); held on the executions listed in the evidence (truth-table coverage reported), not a proof." + RACE,
     "Trusts the hand-written reference predicate (kit/refmatch.go) and the seeded generator's reach; filters are built as values, not parsed.",
     "DESIGN.md section 4, C02")
 
 add("C01", "exploration",
     "runtime monitoring: reference-model oracle (independent NIP-01 canonicaliser + SHA-256 + independent BIP-340 verifier) over freshly signed hostile events, a tamper catalogue, a full BMP code-point sweep and wrong-canonicalisation forgeries; race detector/checkptr",
-    "Every generated event is signed with a real key and must be reported authentic; every alteration from a 25-entry catalogue and every forgery over a non-canonical serialisation must be reported not authentic; Serialize must equal the reference canonical bytes. Held on the events listed in the evidence (all BMP scalars swept each run), not a proof." + RACE,
+    "Every generated event is signed with a real key and must be reported authentic; every alteration from a 27-entry catalogue (incl. malformed hex, cut or padded 00 bytes, respelled pubkeys) and every forgery over a non-canonical serialisation must be reported not authentic; Serialize must equal the reference canonical bytes; 1300/4200 distinct authors per process are re-checked afterwards. Held on the events listed in the evidence (all BMP scalars swept each run), not a proof." + RACE,
     "Trusts kit/canon.go and kit/bip340.go (self-tested on the official BIP-340 vectors at start-up; cross-checks every signed event and 1/8 of the alterations in the thorough tier, 1/16 of the events in quick) and btcec for *signing* only. The gate behind Relay.ServeHTTP is exercised end to end with EVENT-only WebSocket connections (and more broadly by C12).",
     "DESIGN.md section 4, C01")
 
@@ -66,7 +66,7 @@ add("C16", "exploration",
 
 add("C07", "exploration",
     "runtime monitoring: offline must/must-not/may checker over logical-clock-stamped delivery histories of concurrent router sessions; back-pressure progress check with stack witness; registry conservation; race detector + verifPoint delays",
-    "2-8 concurrent scripted connections per run (REQ, re-REQ, CLOSE of open and unknown ids, EVENT, disconnects), every send/receipt stamped on one logical clock; every (subscription instance, publication) pair is classified by real-time order and deliveries must be exactly-once for must, absent for must-not, never duplicated, own sub ids only, in publication order per publisher; back-pressure runs with stalled readers (paced publishers with draining subscribers; unpaced publishers racing for the last slot of a tiny buffer) require publishers to finish and draining subscribers to lose nothing. Held on the runs/pairs counted in the evidence under GOMAXPROCS 16/4/1." + RACE,
+    "2-8 (one run in ten: 12-24) concurrent scripted connections per run (REQ, re-REQ, CLOSE of open and unknown ids, EVENT, disconnects), every send/receipt stamped on one logical clock; every (subscription instance, publication) pair is classified by real-time order and deliveries must be exactly-once for must, absent for must-not, never duplicated, own sub ids only, in publication order per publisher; back-pressure runs with stalled readers (paced publishers with draining subscribers; unpaced publishers racing for the last slot of a tiny buffer) require publishers to finish and draining subscribers to lose nothing; publishers cancelled during the fan-out of their own EVENT: if the accepting OK still arrived, every old matching subscription must get the event. Held on the runs/pairs counted in the evidence under GOMAXPROCS 16/4/1." + RACE,
     "Schedules are sampled (no controllable scheduler); the lower bound is waived for subscriptions of connections cut during the run; 'never delays publishers' is judged as bounded progress with a parked-goroutine witness.",
     "DESIGN.md section 4, C07")
 
@@ -96,13 +96,13 @@ add("C17", "exploration",
 
 add("C18", "exploration",
     "runtime monitoring: per-session shadow models (open set; last-size-distinct-ids window) judging sequential sessions that run concurrently on one shared middleware value; downstream open-count invariant; race detector",
-    "3k / 60k groups of 2-6 concurrent sessions on one shared MaxSubscriptions / RecvEventUniqueFilter / SendEventUniqueFilter value (alone and stacked) over 2-6-id alphabets, N and window sizes 1-4; each sequential session is judged step by step against independent models (forwarded iff open or fewer than N open; in-window ids rejected/suppressed, never-seen ids forwarded/delivered, outside-window either), plus foreign-tag detection and second-wave sessions for isolation; the downstream handler also answers forwarded events with OK true/false, which must not affect the window; every quota boundary cell and window rank is required to have been observed." + RACE,
-    "Only N/size <= 4 and <= 6 concurrent connections; forwarding of CLOSE itself, server-side CLOSED and message texts other than the duplicate: prefix are not claimed.",
+    "3k / 60k groups of 2-6 concurrent sessions on one shared MaxSubscriptions / RecvEventUniqueFilter / SendEventUniqueFilter value (alone and stacked) over 2-6-id alphabets (also look-alike ids), N 1-4 or MaxInt and window sizes 1-4, plus one run of 400k/2M distinct ids through a window of 60000; each sequential session is judged step by step against independent models (forwarded iff open or fewer than N open; in-window ids rejected/suppressed, never-seen ids forwarded/delivered, outside-window either), plus foreign-tag detection and second-wave sessions for isolation; the downstream handler also answers forwarded events with OK true/false, which must not affect the window; every quota boundary cell and window rank is required to have been observed." + RACE,
+    "Window sizes <= 4 except for the one large-window run, <= 6 concurrent connections; forwarding of CLOSE itself, server-side CLOSED and message texts other than the duplicate: prefix are not claimed.",
     "DESIGN.md section 4, C18")
 
 add("C19", "exploration",
     "runtime monitoring: transparency check plus conservation of gauges/counters (Registry.Gather) against both-side recordings at quiescent points of multi-session histories incl. simultaneous start/end bursts; race detector",
-    "At every quiescent point of every generated multi-session history (mixed scripts, a real MaxSubscriptions inside emitting CLOSED, churn, simultaneous-start/end bursts, client CLOSE racing server CLOSED / session end) the values read through Registry.Gather() must equal what the two sides of the middleware recorded: connection gauge = live sessions, subscription gauge = shadow open sets, per-type/per-kind counters = messages crossed, and every message must come out unaltered and in order. Held on the executions counted in the evidence." + RACE,
+    "At every quiescent point of every generated multi-session history (mixed scripts, a real MaxSubscriptions inside emitting CLOSED, churn, simultaneous-start/end bursts, client CLOSE racing server CLOSED / session end, and sessions arriving through a Relay from WebSocket clients with identical request headers) the values read through Registry.Gather() must equal what the two sides of the middleware recorded: connection gauge = live sessions, subscription gauge = shadow open sets, per-type/per-kind counters = messages crossed, and every message must come out unaltered and in order. Held on the executions counted in the evidence." + RACE,
     "Trusts the monitor's boundary handler/recorders and the causal chaining of REQ/CLOSE/CLOSED per (session, id); counters of sessions cut with a message in flight are accepted between 'forwarded' and 'taken'; UNDEFINED message types and the response-time summary are not judged.",
     "DESIGN.md section 4, C19")
 
@@ -114,7 +114,7 @@ add("C20", "exploration",
 
 add("C08", "exploration",
     "runtime monitoring: offline checker over logical-clock-stamped child emissions and client receipts of merged sessions with scripted children (EOSE gating, pre-EOSE order/dedup/limit/filter, post-EOSE per-child FIFO); race detector + verifPoint delays",
-    "2-5 scripted children per session play seeded scripts (stored events sorted or not, matching or not, shared between children; EOSE; uniquely marked live events) with seeded delays while the client issues REQs and CLOSEs at seeded points; per (sub id, generation) the recorded traces must show exactly one EOSE after every child's own (none once a child had received the CLOSE before the last child EOSE was sent), a matching, duplicate-free, non-increasing pre-EOSE stream within a single filter's limit, and complete in-order forwarding of every post-EOSE emission. Held on the sessions/generations counted in the evidence." + RACE,
+    "2-5 (rarely 60-109, sometimes with a nested merge) scripted children per session play seeded scripts (a child may refuse the REQ with CLOSED: then no merged EOSE is due; stored events sorted or not, matching or not, shared between children; EOSE; uniquely marked live events) with seeded delays while the client issues REQs and CLOSEs at seeded points; per (sub id, generation) the recorded traces must show exactly one EOSE after every child's own (none once a child had received the CLOSE before the last child EOSE was sent), a matching, duplicate-free, non-increasing pre-EOSE stream within a single filter's limit, and complete in-order forwarding of every post-EOSE emission. Held on the sessions/generations counted in the evidence." + RACE,
     "Interleavings are sampled; sub ids are re-issued only after their EOSE (as the quantifier says); events a child emits between its own EOSE and the merged one, and after a client CLOSE, are 'may'.",
     "DESIGN.md section 4, C08")
 
